@@ -207,11 +207,14 @@ class ScriptRelay(object):
 # -------------------------------------------------------------- fake redis
 class FakeRedis(object):
     """The redis commands RedisStorage uses, each atomic, each preceded by a
-    yield (network round trip).  Values are stored as given."""
+    yield (network round trip).  Replies have the types redis-py gives with
+    its default decode_responses=False: keys and string values come back as
+    bytes, numbers as their decimal text in bytes; a hash command on the list
+    key fails with WRONGTYPE.  (Symbolic values are kept as given.)"""
 
     def __init__(self, yields=True):
-        self.h = {}        # key -> dict
-        self.lists = {}    # key -> list
+        self.h = {}        # key (str) -> dict
+        self.lists = {}    # key (str) -> list
         self.yields = yields
         self.blocked = []
 
@@ -219,9 +222,35 @@ class FakeRedis(object):
         if self.yields:
             yield_point()
 
+    @staticmethod
+    def _k(key):
+        return key.decode('utf-8') if isinstance(key, bytes) else key
+
+    @staticmethod
+    def _out(v):
+        if isinstance(v, bool):
+            return str(int(v)).encode()
+        if isinstance(v, str):
+            return v.encode('utf-8')
+        if isinstance(v, int):
+            return str(v).encode()
+        if isinstance(v, float):
+            return repr(v).encode()
+        return v
+
+    def _hash(self, key, create=False):
+        key = self._k(key)
+        if self.lists.get(key):
+            import redis
+            raise redis.ResponseError('WRONGTYPE Operation against a key '
+                                      'holding the wrong kind of value')
+        if create:
+            return self.h.setdefault(key, {})
+        return self.h.get(key, {})
+
     def hsetnx(self, key, field, value):
         self._y()
-        d = self.h.setdefault(key, {})
+        d = self._hash(key, True)
         if field in d:
             return 0
         d[field] = value
@@ -229,31 +258,32 @@ class FakeRedis(object):
 
     def hset(self, key, field, value):
         self._y()
-        self.h.setdefault(key, {})[field] = value
+        self._hash(key, True)[field] = value
         return 1
 
     def hmset(self, key, mapping):
         self._y()
-        self.h.setdefault(key, {}).update(mapping)
+        self._hash(key, True).update(mapping)
         return True
 
     def hget(self, key, field):
         self._y()
-        return self.h.get(key, {}).get(field)
+        return self._out(self._hash(key).get(field))
 
     def hmget(self, key, *fields):
         self._y()
-        d = self.h.get(key, {})
-        return [d.get(f) for f in fields]
+        d = self._hash(key)
+        return [self._out(d.get(f)) for f in fields]
 
     def hincrby(self, key, field, amount=1):
         self._y()
-        d = self.h.setdefault(key, {})
+        d = self._hash(key, True)
         d[field] = int(d.get(field, 0)) + amount
         return d[field]
 
     def delete(self, key):
         self._y()
+        key = self._k(key)
         n = 0
         if key in self.h:
             del self.h[key]
@@ -266,10 +296,12 @@ class FakeRedis(object):
     def keys(self, pattern='*'):
         self._y()
         ks = list(self.h.keys()) + [k for k, v in self.lists.items() if v]
-        return [k for k in ks if fnmatch.fnmatchcase(k, pattern)]
+        return [k.encode('utf-8') for k in ks
+                if fnmatch.fnmatchcase(k, self._k(pattern))]
 
     def rpush(self, key, value):
         self._y()
+        key = self._k(key)
         self.lists.setdefault(key, []).append(value)
         self._wake()
         return len(self.lists[key])
@@ -283,9 +315,9 @@ class FakeRedis(object):
         while True:
             self._y()
             for k in keys:
-                lst = self.lists.get(k)
+                lst = self.lists.get(self._k(k))
                 if lst:
-                    return (k, lst.pop(0))
+                    return (self._k(k).encode('utf-8'), lst.pop(0))
             ev = Event()
             self.blocked.append(ev)
             try:
